@@ -769,3 +769,27 @@ fn c19_run_hands_the_drift_rate_to_the_updater() {
     }
     kani::cover!(drift == u32::MAX, "C19.cover.run_max");
 }
+
+// =============================================================================================
+// C13 (configuration side): the reference id given on the command line is packed exactly like
+// chronyd packs it (up to four ASCII characters, big endian), so that "the configured reference id
+// matches the report's" compares like with like
+// =============================================================================================
+#[kani::proof]
+#[kani::unwind(8)]
+fn c13_refid_to_u32_packs_ascii_big_endian() {
+    let bytes: [u8; 4] = kani::any();
+    let len: usize = kani::any();
+    kani::assume(len <= 4);
+    kani::assume(bytes[0] < 128 && bytes[1] < 128 && bytes[2] < 128 && bytes[3] < 128);
+    let s = unsafe { std::str::from_utf8_unchecked(&bytes[..len]) };
+    let r = crate::refid_to_u32(s);
+    let mut expect: u32 = 0;
+    let mut i = 0;
+    while i < len {
+        expect = (expect << 8) | bytes[i] as u32;
+        i += 1;
+    }
+    kani::assert(r == Ok(expect), "C13.refid.ascii_packed_big_endian");
+    kani::cover!(len == 4 && bytes[0] == b'P', "C13.cover.refid_phc0");
+}
